@@ -216,6 +216,8 @@ pub enum Val {
     Ref(usize, Vec<usize>),
     Str(String),
     Opaque(u32),
+    /// reference to an immutable constant (a promoted temporary such as `&S { raw_value: 0 }`)
+    ConstRef(Box<Val>),
     Top,
 }
 
@@ -322,6 +324,8 @@ pub struct State<'tcx> {
     pub ranges: Vec<(u128, u128)>,
     /// predicate symbols: sym id -> (range id, c) meaning "range < c"
     pub preds: Vec<(u32, u32, u128)>,
+    /// equality predicates: sym id -> (bits of the compared value, constant): "value == c"
+    pub eqpreds: Vec<(u32, Vec<Bit>, u128)>,
 }
 
 pub struct Outcome {
@@ -347,6 +351,8 @@ enum PlaceRes {
     At(usize, Vec<usize>),
     /// deref of a `&str` constant or of something that is not a tracked reference
     Pointee(Val),
+    /// a place inside an immutable constant reached through a `ConstRef`
+    ConstPointee(Val),
     Unknown,
 }
 
@@ -577,6 +583,7 @@ impl<'tcx> Interp<'tcx> {
                 obj(&[("ref", self.render(st, &inner, depth + 1))])
             }
             Val::Str(s) => obj(&[("str", esc(s))]),
+            Val::ConstRef(inner) => obj(&[("ref", self.render(st, inner, depth + 1))]),
             Val::Opaque(s) => obj(&[("o", esc(&st.syms[*s as usize]))]),
             Val::Top => "{\"t\":1}".to_string(),
         }
@@ -625,7 +632,7 @@ impl<'tcx> Interp<'tcx> {
         let fr = st.frames.last().unwrap();
         let mut cell = fr.base + place.local.as_usize();
         let mut path: Vec<usize> = Vec::new();
-        for elem in place.projection.iter() {
+        for (ei, elem) in place.projection.iter().enumerate() {
             match elem {
                 ProjectionElem::Deref => match Self::read(st, cell, &path) {
                     Val::Ref(c, p) => {
@@ -635,6 +642,47 @@ impl<'tcx> Interp<'tcx> {
                     v @ (Val::Str(_) | Val::Opaque(_)) => {
                         // only valid as the last projection
                         return PlaceRes::Pointee(v);
+                    }
+                    Val::ConstRef(inner) => {
+                        // read-only constant: apply the remaining projections to the value itself
+                        let mut cur: Val = *inner;
+                        for e2 in place.projection.iter().skip(ei + 1) {
+                            cur = match (e2, cur) {
+                                (ProjectionElem::Field(f, _), Val::Struct(mut fs)) | (ProjectionElem::Field(f, _), Val::Enum { fields: mut fs, .. }) => {
+                                    if f.as_usize() < fs.len() {
+                                        fs.swap_remove(f.as_usize())
+                                    } else {
+                                        return PlaceRes::Unknown;
+                                    }
+                                }
+                                (ProjectionElem::ConstantIndex { offset, from_end: false, .. }, Val::Array(mut fs)) => {
+                                    if (offset as usize) < fs.len() {
+                                        fs.swap_remove(offset as usize)
+                                    } else {
+                                        return PlaceRes::Unknown;
+                                    }
+                                }
+                                (ProjectionElem::Index(l), Val::Array(mut fs)) => {
+                                    let iv = Self::read(st, fr.base + l.as_usize(), &[]);
+                                    let i = match iv {
+                                        Val::Int { bits, .. } => const_of(&bits),
+                                        Val::Range { id, mul, add, .. } => {
+                                            let (lo, hi) = st.ranges[id as usize];
+                                            if lo == hi { mul.checked_mul(lo).and_then(|x| x.checked_add(add)) } else { None }
+                                        }
+                                        _ => None,
+                                    };
+                                    match i {
+                                        Some(i) if (i as usize) < fs.len() => fs.swap_remove(i as usize),
+                                        _ => return PlaceRes::Unknown,
+                                    }
+                                }
+                                (ProjectionElem::Downcast(..), v) | (ProjectionElem::OpaqueCast(..), v) => v,
+                                (ProjectionElem::Deref, Val::ConstRef(b)) => *b,
+                                _ => return PlaceRes::Unknown,
+                            };
+                        }
+                        return PlaceRes::ConstPointee(cur);
                     }
                     _ => return PlaceRes::Unknown,
                 },
@@ -676,7 +724,7 @@ impl<'tcx> Interp<'tcx> {
                 }
                 v
             }
-            PlaceRes::Pointee(v) => v,
+            PlaceRes::Pointee(v) | PlaceRes::ConstPointee(v) => v,
             PlaceRes::Unknown => {
                 let fr = st.frames.last().unwrap();
                 let ty = self.mono(fr.inst, place.ty(&fr.body.local_decls, self.tcx).ty);
@@ -773,7 +821,19 @@ impl<'tcx> Interp<'tcx> {
     pub fn const_value_to_val(&self, cv: ConstValue, ty: Ty<'tcx>) -> Val {
         match cv {
             ConstValue::Scalar(Scalar::Int(si)) => self.decode_scalar(ty, si.to_bits_unchecked()),
-            ConstValue::Scalar(_) => Val::Top,
+            ConstValue::Scalar(Scalar::Ptr(ptr, _)) => {
+                // `&CONST` / promoted temporary: decode the pointee from its allocation
+                if let ty::Ref(_, inner, _) = ty.kind() {
+                    let (prov, off) = ptr.into_raw_parts();
+                    if let GlobalAlloc::Memory(a) = self.tcx.global_alloc(prov.alloc_id()) {
+                        let al = a.inner();
+                        let bytes = al.inspect_with_uninit_and_ptr_outside_interpreter(0..al.len());
+                        let v = self.decode_bytes(*inner, bytes, off.bytes() as usize, 0);
+                        return Val::ConstRef(Box::new(v));
+                    }
+                }
+                Val::Top
+            }
             ConstValue::ZeroSized => Val::Unit,
             ConstValue::Slice { alloc_id, meta } => {
                 if let GlobalAlloc::Memory(a) = self.tcx.global_alloc(alloc_id) {
@@ -1190,6 +1250,82 @@ impl<'tcx> Interp<'tcx> {
         Some(Val::Struct(vec![value, bool_val(Bit::S(sym, 0, true))]))
     }
 
+    fn eval_intrinsic(&self, name: &str, args: &[Val], dty: Ty<'tcx>) -> Option<Val> {
+        let (w, signed) = int_width(dty)?;
+        let a = match args.first()? {
+            Val::Int { bits, .. } => bits.clone(),
+            _ => return None,
+        };
+        let amt = |v: &Val| -> Option<u128> {
+            match v {
+                Val::Int { bits, .. } => const_of(bits),
+                _ => None,
+            }
+        };
+        match name {
+            "rotate_left" | "rotate_right" => {
+                if a.len() != w {
+                    return None;
+                }
+                let k = (amt(args.get(1)?)? as usize) % w;
+                let mut out = vec![Bit::Z; w];
+                for i in 0..w {
+                    let src = if name == "rotate_left" { (i + w - k) % w } else { (i + k) % w };
+                    out[i] = a[src];
+                }
+                Some(Val::Int { signed, bits: out })
+            }
+            "unchecked_shl" | "unchecked_shr" => {
+                let k = amt(args.get(1)?)? as usize;
+                if k >= w || a.len() != w {
+                    return None;
+                }
+                let mut out = Vec::with_capacity(w);
+                if name == "unchecked_shl" {
+                    for i in 0..w {
+                        out.push(if i < k { Bit::Z } else { a[i - k] });
+                    }
+                } else {
+                    let fill = if signed { a[w - 1] } else { Bit::Z };
+                    for i in 0..w {
+                        out.push(if i + k < w { a[i + k] } else { fill });
+                    }
+                }
+                Some(Val::Int { signed, bits: out })
+            }
+            "wrapping_add" | "wrapping_sub" | "wrapping_mul" | "unchecked_add" | "unchecked_sub" | "unchecked_mul" => {
+                let x = const_of(&a)?;
+                let y = amt(args.get(1)?)?;
+                let r = match name {
+                    "wrapping_add" | "unchecked_add" => x.wrapping_add(y),
+                    "wrapping_sub" | "unchecked_sub" => x.wrapping_sub(y),
+                    _ => x.wrapping_mul(y),
+                };
+                Some(Val::Int { signed, bits: from_const(r & mask(w), w) })
+            }
+            "bswap" => {
+                if a.len() != w || w % 8 != 0 {
+                    return None;
+                }
+                let n = w / 8;
+                let mut out = vec![Bit::Z; w];
+                for b in 0..n {
+                    for i in 0..8 {
+                        out[b * 8 + i] = a[(n - 1 - b) * 8 + i];
+                    }
+                }
+                Some(Val::Int { signed, bits: out })
+            }
+            "bitreverse" => {
+                if a.len() != w {
+                    return None;
+                }
+                Some(Val::Int { signed, bits: a.iter().rev().copied().collect() })
+            }
+            _ => None,
+        }
+    }
+
     /// little-endian reinterpretation between integers and byte arrays (what to_le_bytes / from_le_bytes
     /// compile to on this target), and between integers of one width
     fn transmute(&self, v: &Val, to: Ty<'tcx>) -> Val {
@@ -1256,6 +1392,7 @@ impl<'tcx> Interp<'tcx> {
                 match self.resolve_place(st, place) {
                     PlaceRes::At(c, p) => Val::Ref(c, p),
                     PlaceRes::Pointee(v) => v,
+                    PlaceRes::ConstPointee(v) => Val::ConstRef(Box::new(v)),
                     PlaceRes::Unknown => Val::Top,
                 }
             }
@@ -1297,6 +1434,28 @@ impl<'tcx> Interp<'tcx> {
                             (k, x @ Val::Range { .. }, BinOp::Ge) => cst(k).and_then(|c| c.checked_add(1)).and_then(|c| thr(x, c)).map(|(i, t)| (i, t, false)),
                             _ => None,
                         };
+                        // "symbolic value == constant" (an if-chain over raw values): name it, so that the branch
+                        // can bind the value on its true side
+                        if matches!(op, BinOp::Eq | BinOp::Ne) {
+                            let pick = |a: &Val, b: &Val| -> Option<(Vec<Bit>, u128)> {
+                                if let (Val::Int { bits: x, .. }, Val::Int { bits: y, .. }) = (a, b) {
+                                    if let Some(c) = const_of(y) {
+                                        if x.iter().all(|q| matches!(q, Bit::Z | Bit::O | Bit::S(..))) && x.iter().any(|q| matches!(q, Bit::S(..))) {
+                                            return Some((x.clone(), c));
+                                        }
+                                    }
+                                }
+                                None
+                            };
+                            if let Some((vbits, c)) = pick(&l, &r).or_else(|| pick(&r, &l)) {
+                                let rendered = Self::render_bits(st, &vbits);
+                                let sym = Self::sym(st, &format!("eq:{}=={}", rendered, c));
+                                if !st.eqpreds.iter().any(|p| p.0 == sym) {
+                                    st.eqpreds.push((sym, vbits, c));
+                                }
+                                return bool_val(Bit::S(sym, 0, matches!(op, BinOp::Ne)));
+                            }
+                        }
                         if let Some((rid, c, neg)) = form {
                             let sym = Self::sym(st, &format!("pred:r{}<{}", rid, c));
                             if !st.preds.iter().any(|p| p.0 == sym) {
@@ -1610,6 +1769,38 @@ impl<'tcx> Interp<'tcx> {
     fn apply_assume(st: &mut State<'tcx>, b: Bit, val: bool) -> bool {
         if let Bit::S(s, k, n) = b {
             let truth = val != n; // value of the un-negated symbol
+            if let Some(ep) = st.eqpreds.iter().find(|p| p.0 == s).cloned() {
+                if truth {
+                    for (i, b) in ep.1.iter().enumerate() {
+                        let want = (ep.2 >> i) & 1 == 1;
+                        match Self::assumed(st, *b) {
+                            Bit::Z => {
+                                if want {
+                                    return false;
+                                }
+                            }
+                            Bit::O => {
+                                if !want {
+                                    return false;
+                                }
+                            }
+                            Bit::S(s2, k2, n2) => st.assume.push(((s2, k2), want != n2)),
+                            _ => {}
+                        }
+                    }
+                    if ep.1.len() < 128 && (ep.2 >> ep.1.len()) != 0 {
+                        return false;
+                    }
+                }
+                let shown = Self::render_bits(st, &ep.1);
+                if truth {
+                    st.conds.push(obj(&[("sw", obj(&[("w", ep.1.len().to_string()), ("sg", "0".into()), ("m", esc(&shown))])), ("eq", esc(&ep.2.to_string()))]));
+                } else {
+                    st.conds.push(obj(&[("sw", obj(&[("w", ep.1.len().to_string()), ("sg", "0".into()), ("m", esc(&shown))])), ("ne", arr(&[esc(&ep.2.to_string())]))]));
+                }
+                st.assume.push(((s, k), truth));
+                return true;
+            }
             if let Some(p) = st.preds.iter().find(|p| p.0 == s).copied() {
                 let (lo, hi) = st.ranges[p.1 as usize];
                 let (nlo, nhi) = if truth {
@@ -1638,7 +1829,11 @@ impl<'tcx> Interp<'tcx> {
     }
 
     fn is_pred(st: &State<'tcx>, b: Bit) -> bool {
-        matches!(b, Bit::S(s, _, _) if st.preds.iter().any(|p| p.0 == s))
+        matches!(b, Bit::S(s, _, _) if st.preds.iter().any(|p| p.0 == s) || st.eqpreds.iter().any(|p| p.0 == s))
+    }
+
+    fn is_eqpred(st: &State<'tcx>, b: Bit) -> bool {
+        matches!(b, Bit::S(s, _, _) if st.eqpreds.iter().any(|p| p.0 == s))
     }
 
     fn goto(st: &mut State<'tcx>, t: BasicBlock) {
@@ -1764,6 +1959,36 @@ impl<'tcx> Interp<'tcx> {
             }
             TerminatorKind::SwitchInt { discr, targets } => {
                 let d = self.eval_operand(st, discr);
+                if let Val::Range { id, mul, add, .. } = &d {
+                    // `match index { 0 => .., 1 => .., _ => .. }` on the interval class: a listed value is
+                    // reachable iff some r in the interval maps to it; the fall-through iff some r maps to none
+                    let (rlo, rhi) = st.ranges[*id as usize];
+                    let mut forks = Vec::new();
+                    let mut hit: u128 = 0;
+                    for (v, t) in targets.iter() {
+                        if *mul == 0 || v < *add || (v - *add) % *mul != 0 {
+                            continue;
+                        }
+                        let r = (v - *add) / *mul;
+                        if r < rlo || r > rhi {
+                            continue;
+                        }
+                        hit += 1;
+                        let mut s2 = st.clone();
+                        s2.ranges[*id as usize] = (r, r);
+                        s2.conds.push(obj(&[("pred", esc(&format!("index=={}", r))), ("is", "true".into())]));
+                        Self::goto(&mut s2, t);
+                        forks.push(s2);
+                    }
+                    let size = (rhi - rlo).saturating_add(1);
+                    if hit < size {
+                        let mut s2 = st.clone();
+                        s2.conds.push(obj(&[("pred", esc("index matches no listed value")), ("is", "true".into())]));
+                        Self::goto(&mut s2, targets.otherwise());
+                        forks.push(s2);
+                    }
+                    return Step::Fork(forks);
+                }
                 let bits: Vec<Bit> = match self.as_int(&d) {
                     Some((_, b)) => b.iter().map(|x| Self::assumed(st, *x)).collect(),
                     None => {
@@ -1857,7 +2082,9 @@ impl<'tcx> Interp<'tcx> {
                 for (v, t) in listed.iter() {
                     let mut s2 = st.clone();
                     s2.imprecise |= has_top;
-                    s2.conds.push(obj(&[("sw", rendered.clone()), ("eq", esc(&v.to_string()))]));
+                    if !(bits.len() == 1 && Self::is_eqpred(st, bits[0])) {
+                        s2.conds.push(obj(&[("sw", rendered.clone()), ("eq", esc(&v.to_string()))]));
+                    }
                     if bits.len() == 1 && !Self::apply_assume(&mut s2, bits[0], *v == 1) {
                         continue;
                     }
@@ -1868,7 +2095,9 @@ impl<'tcx> Interp<'tcx> {
                     let mut s2 = st.clone();
                     s2.imprecise |= has_top;
                     let ne: Vec<String> = listed.iter().map(|(v, _)| esc(&v.to_string())).collect();
-                    s2.conds.push(obj(&[("sw", rendered.clone()), ("ne", arr(&ne))]));
+                    if !(bits.len() == 1 && Self::is_eqpred(st, bits[0])) {
+                        s2.conds.push(obj(&[("sw", rendered.clone()), ("ne", arr(&ne))]));
+                    }
                     let mut feasible = true;
                     if bits.len() == 1 && listed.len() == 1 {
                         feasible = Self::apply_assume(&mut s2, bits[0], listed[0].0 != 1);
@@ -1920,6 +2149,20 @@ impl<'tcx> Interp<'tcx> {
                         }
                     }
                 }
+                // a few integer intrinsics are computed exactly instead of being treated as unknown
+                if inline.is_none() {
+                    if let Some(ci) = resolved {
+                        if let Some(intr) = self.tcx.intrinsic(ci.def_id()) {
+                            if let Some(v) = self.eval_intrinsic(intr.name.as_str(), &argv, dty) {
+                                if let PlaceRes::At(dc, dp) = self.resolve_place(st, destination) {
+                                    Self::write(st, dc, &dp, v);
+                                    Self::goto(st, target);
+                                    return Step::Cont;
+                                }
+                            }
+                        }
+                    }
+                }
                 match self.resolve_place(st, destination) {
                     PlaceRes::At(dc, dp) => {
                         if let Some(ci) = inline {
@@ -1930,7 +2173,10 @@ impl<'tcx> Interp<'tcx> {
                             let n = st.ncalls;
                             st.ncalls += 1;
                             st.calls.push(obj(&[("n", n.to_string()), ("callee", esc(&callee_name)), ("args", arr(&rendered_args))]));
-                            let rv = self.materialize(st, dty, &format!("c{}", n), 0);
+                            // results of the custom-type conversions (and of calls made by a Debug impl) are named
+                            // symbols; any other call that could not be followed yields an unknown value
+                            let named = resolved.map(|ci| self.policy_opaque(ci.def_id())).unwrap_or(false) || (self.opaque_depth0 && depth == 1);
+                            let rv = if named { self.materialize(st, dty, &format!("c{}", n), 0) } else { self.top_of(dty, 0) };
                             Self::write(st, dc, &dp, rv);
                             Self::goto(st, target);
                         }
